@@ -37,7 +37,7 @@ OPTS = {
     'explicit_start': [None, True, False], 'explicit_end': [None, True, False], 'version': [None, None, (1, 1), (1, 2)],
     'tags': [None, None, {'!e!': 'tag:example.com,2000:'}, {'!': '!loc-'}], 'default_style': [None, None, '"', "'", '|', '>'],
     'canonical': [None, None, None, True], 'line_break': [None, '\n', '\r', '\r\n'], 'width': [None, 5, 20, 80], 'indent': [None, 2, 4, 9],
-    'default_flow_style': [False, True, None], 'allow_unicode': [None, True],
+    'default_flow_style': [False, True, None], 'allow_unicode': [None, True], 'sort_keys': [True, False],
 }
 
 
@@ -93,9 +93,14 @@ def gen_value(r):
         return ['dict', []]
     if c < 0.88:
         return ['shared', r.choice(['list', 'dict'])]          # alias-only content: [x, x] with x empty
-    if c < 0.94:
+    if c < 0.91:
         return ['list', [gen_value(r) for _ in range(r.randint(1, 3))]]
-    return ['dict', [[r.choice(VALUES[:12] + ['k', 'k2']), gen_value(r)] for _ in range(r.randint(1, 3))]]
+    keys = []
+    for _ in range(r.randint(1, 4)):
+        k = r.choice(VALUES + ['k', 'k2', '+1', '#c', '!x', '--- a', '... b', '---', '...'])
+        if k not in keys:
+            keys.append(k)
+    return ['dict', [[k, gen_value(r)] for k in keys]]
 
 
 def build_value(v):
@@ -256,21 +261,45 @@ def empty_plain_root(spec):
 def serialize_case(r, ctx, i):
     docs = [gen_node_spec(r) for _ in range(r.choice([0, 1, 2, 2, 3, 3, 4, 5]))]
     opts = gen_opts(r, keys=('explicit_start', 'explicit_end', 'version', 'tags', 'canonical', 'line_break', 'width', 'indent', 'allow_unicode'))
-    case = {'level': 'serialize', 'docs': docs, 'opts': jopts(opts)}
-    ctx.case(core.h64('ser', repr(docs), repr(sorted(opts.items(), key=str))), True, ['level:serialize', 'ndocs:%d' % len(docs)])
+    share = []
+    if len(docs) >= 2 and r.random() < 0.35:
+        for _ in range(r.randint(1, 2)):
+            i = r.randrange(len(docs) - 1)
+            share.append([i, r.randrange(i + 1, len(docs))])
+    case = {'level': 'serialize', 'docs': docs, 'opts': jopts(opts), 'share': share}
+    ctx.case(core.h64('ser', repr(docs), repr(share), repr(sorted(opts.items(), key=str))), True, ['level:serialize', 'ndocs:%d' % len(docs)] + (['shared_node_objects'] if share else []))
     if i < 2:
         ctx.sample(case)
     check_serialize(docs, opts, ctx, case)
 
 
+def build_nodes(docs, share):
+    """One node graph per document; share = [[i, j], ...]: document j is the very same node object as document i, or (for
+    collections) holds the same first child object.  The serializer must treat every document on its own."""
+    nodes = [build_node(d) for d in docs]
+    touched = set()
+    for i, j in share or []:
+        if i in touched or j in touched:
+            continue                          # every document takes part in at most one sharing: a later pair must not rewrite an earlier document
+        touched.update((i, j))
+        if i < len(nodes) and j < len(nodes) and i != j:
+            a, b = nodes[i], nodes[j]
+            if isinstance(a, yaml.CollectionNode) and isinstance(b, yaml.CollectionNode) and a.value and b.value and type(a) is type(b):
+                b.value[0] = a.value[0]          # a child object shared between two documents
+            else:
+                nodes[j] = a                     # the same root object twice
+    return nodes
+
+
 def check_serialize(docs, opts, ctx, case, only=None):
-    want = [sigs.node_sig(build_node(d)) for d in docs]
+    share = case.get('share')
+    want = [sigs.node_sig(n) for n in build_nodes(docs, share)]
     for dname in yamlapi.loaders(['Dumper', 'CDumper']):
         if only and only[0] != dname:
             continue
         ctx.crumb(dict(case, D=dname))
         try:
-            text = yaml.serialize_all([build_node(d) for d in docs], Dumper=getattr(yaml, dname), **opts)
+            text = yaml.serialize_all(build_nodes(docs, share), Dumper=getattr(yaml, dname), **opts)
         except yaml.YAMLError as e:
             ctx.violation(dict(case, D=dname), {'what': 'serialize_all rejected a node graph', 'exc': yamlapi.exc_sig(e)}, None)
             continue
@@ -294,7 +323,7 @@ def check_serialize(docs, opts, ctx, case, only=None):
                     ctx.violation(who, {'what': 'document %d differs after the round trip' % k, 'wrote': a[:300], 'read': b[:300], 'text': text[:800]},
                                   classify_nodes(dname, opts, docs[k], a, b))
                     break
-        prefix_checks(lambda ds, st: yaml.serialize_all([build_node(d) for d in ds], st, Dumper=getattr(yaml, dname), **opts), docs, ctx, case, dname)
+        prefix_checks(lambda ds, st: yaml.serialize_all(build_nodes(ds, share), st, Dumper=getattr(yaml, dname), **opts), docs, ctx, case, dname)
 
 
 def f9a_nodes(docs, opts):
@@ -401,7 +430,7 @@ def run(spec, ctx):
 def replay(case, ctx):
     ctx.case(core.h64(repr(case)), True)
     only = (case['D'], case['L']) if case.get('D') and case.get('L') else None
-    base = {k: case[k] for k in ('level', 'docs', 'opts')}
+    base = {k: case[k] for k in ('level', 'docs', 'opts', 'share') if k in case}
     if case['level'] == 'dump':
         check_dump(case['docs'], unjopts(case['opts']), ctx, base, only)
     elif case['level'] == 'serialize':
